@@ -1,5 +1,136 @@
-(* C20 -- Async runner.  Property theorems only: every statement below is the statement of a lemma proved
-   in proofs/RunnerProofs.v, printed by Coq and closed by `exact`. *)
-From Coq Require Import List ZArith.
+(* C20 -- Async runner (two-thread LTS of theories/Runner.v; every theorem quantifies over ALL schedules and client scripts).
+   Property theorems only: every statement below is the statement of a lemma proved in proofs/,
+   printed by Coq and closed by `exact`. *)
+From Coq Require Import List ZArith Bool.
 From Sismic Require Import Runner.
+From SismicProofs Require Import RunnerProofs.
 Import ListNotations.
+
+(* handed lists ++ steps of the cycle under way = macro steps executed on the runner thread (order, each once); <= 1 per list without execute_all; all handed once the thread has ended *)
+Theorem C20_report_thm :
+  forall (cf : config) (sched : list tid) (s : state) (tr : list titem),
+         run_schedule cf sched = (s, tr) ->
+         executed tr = handed tr ++ in_flight s /\
+         (cf_all cf = false -> Forall (fun l : list mstep => length l <= 1) (reports tr)) /\
+         (s_rpc s = PDone -> executed tr = handed tr).
+Proof. exact C20_report. Qed.
+Print Assumptions C20_report_thm.
+
+(* before_run / after_run at most once, first and last actions of the runner thread; exactly once each if the thread ends *)
+Theorem C20_hooks_thm :
+  forall (cf : config) (sched : list tid) (s : state) (tr : list titem),
+         run_schedule cf sched = (s, tr) ->
+         count_ract is_before_run tr <= 1 /\
+         count_ract is_after_run tr <= 1 /\
+         (forall (a : ract) (rest : list ract), ractions tr = a :: rest -> a = ABeforeRun) /\
+         (forall pre post : list ract, ractions tr = pre ++ AAfterRun :: post -> post = [] /\ s_rpc s = PDone) /\
+         (s_rpc s = PDone -> count_ract is_before_run tr = 1 /\ count_ract is_after_run tr = 1).
+Proof. exact C20_hooks. Qed.
+Print Assumptions C20_hooks_thm.
+
+(* after pause() has returned, at most one cycle begins until the next unpause()/stop()/start() sets the flag *)
+Theorem C20_pause_thm :
+  forall (cf : config) (sched1 : list tid) (s1 : state) (tr0 : list titem) (sched2 : list tid)
+           (s2 : state) (mid : list titem),
+         run_schedule cf sched1 = (s1, tr0 ++ [TRet 0 CPause OK]) ->
+         run_from cf s1 sched2 = (s2, mid) -> no_unp_set mid -> count_ract is_before_exec mid <= 1.
+Proof. exact C20_pause. Qed.
+Print Assumptions C20_pause_thm.
+
+(* once _stop is set the runner thread performs at most mu further actions of its own (see mu_le, mu_le_noall), under every continuation *)
+Theorem C20_stop_bound_thm :
+  forall (cf : config) (sched : list tid) (s s' : state) (l : list titem),
+         base_inv s ->
+         s_stop s = true -> run_from cf s sched = (s', l) -> length (ractions l) + mu cf s' <= mu cf s.
+Proof. exact C20_stop_bound. Qed.
+Print Assumptions C20_stop_bound_thm.
+
+(* the bound is 10 actions without execute_all *)
+Theorem mu_le_noall_thm :
+  forall (cf : config) (s : state), cf_all cf = false -> mu cf s <= 10.
+Proof. exact mu_le_noall. Qed.
+Print Assumptions mu_le_noall_thm.
+
+(* and 13 + 3 * (queue length + 2 * insertions still to come + 1) with execute_all *)
+Theorem mu_le_thm :
+  forall (cf : config) (s : state), mu cf s <= 10 + 3 * phi cf s + 3.
+Proof. exact mu_le. Qed.
+Print Assumptions mu_le_thm.
+
+(* inside stop() with both flags set, every continuation with >= mu runner turns and then one client turn makes stop() return (so: under every fair schedule) *)
+Theorem C20_stop_returns_thm :
+  forall (cf : config) (sched0 : list tid) (s : state) (tr : list titem) (a b : list tid) 
+           (s' : state) (l : list titem),
+         run_schedule cf sched0 = (s, tr) ->
+         in_stop2 (s_cpc s) = true ->
+         mu cf s <= run_turns a -> In (TCli 0) b -> run_from cf s (a ++ b) = (s', l) -> In (TRet 0 CStop OK) l.
+Proof. exact C20_stop_returns. Qed.
+Print Assumptions C20_stop_returns_thm.
+
+(* after stop() has returned the runner thread never acts again (it is not alive and _stop is set), whatever is called afterwards *)
+Theorem C20_stop_quiet_thm :
+  forall (cf : config) (sched1 : list tid) (s1 : state) (tr0 : list titem) (sched2 : list tid)
+           (s2 : state) (l : list titem),
+         run_schedule cf sched1 = (s1, tr0 ++ [TRet 0 CStop OK]) ->
+         run_from cf s1 sched2 = (s2, l) -> ractions l = [] /\ s_alive s1 = false /\ s_stop s1 = true.
+Proof. exact C20_stop_quiet. Qed.
+Print Assumptions C20_stop_quiet_thm.
+
+(* after the loop test read final = true the only further runner actions are _stop.set() and after_run; _stop is then set *)
+Theorem C20_final_thm :
+  forall (cf : config) (sched1 : list tid) (s1 : state) (tr0 : list titem) (sched2 : list tid)
+           (s2 : state) (l : list titem),
+         run_schedule cf sched1 = (s1, tr0 ++ [TR (ATestFinal true)]) ->
+         run_from cf s1 sched2 = (s2, l) ->
+         (ractions l = [] \/ ractions l = [AStopSet] \/ ractions l = [AStopSet; AAfterRun]) /\
+         (ractions l <> [] -> s_stop s2 = true).
+Proof. exact C20_final. Qed.
+Print Assumptions C20_final_thm.
+
+(* interpreter.final is true exactly when an executed macro step made the chart final *)
+Theorem C20_final_meaning_thm :
+  forall (cf : config) (sched : list tid) (s : state) (tr : list titem),
+         run_schedule cf sched = (s, tr) -> s_fin s = final_of cf (executed tr).
+Proof. exact C20_final_meaning. Qed.
+Print Assumptions C20_final_meaning_thm.
+
+(* the value the loop test reads is that one *)
+Theorem C20_final_test_thm :
+  forall (cf : config) (sched : list tid) (s : state) (tr0 : list titem) (b : bool),
+         run_schedule cf sched = (s, tr0 ++ [TR (ATestFinal b)]) -> b = final_of cf (executed tr0).
+Proof. exact C20_final_test. Qed.
+Print Assumptions C20_final_test_thm.
+
+(* zero-delay events, one client: inserted = consumed ++ queue (FIFO, at most once, nothing lost); processed = consumed; inserted is a prefix of the script order; execute_once finds nothing only when everything inserted was consumed *)
+Theorem C20_events_thm :
+  forall (cf : config) (sched : list tid) (s : state) (tr : list titem),
+         zero_delay_script (cf_script cf) ->
+         run_schedule cf sched = (s, tr) ->
+         ins_events (cf_atomic cf) tr = popped_events tr ++ map snd (s_queue s) /\
+         pops_ok tr /\
+         (exists rest : list ev, queued_events (cf_script cf) = ins_events (cf_atomic cf) tr ++ rest) /\
+         (forall tr0 : list titem,
+          tr = tr0 ++ [TR (AExPeek PkNone)] -> ins_events (cf_atomic cf) tr0 = popped_events tr0).
+Proof. exact C20_events. Qed.
+Print Assumptions C20_events_thm.
+
+(* delayed events, code as it is: witness schedule after which execute_once finds nothing although an inserted, unconsumed event is due (stale bisect index; known finding C20-stale-bisect-index) *)
+Theorem C20_events_refuted_thm :
+  exists (s : state) (tr0 : list titem),
+           run_schedule (w_cf false) w_sched = (s, tr0 ++ [TR (AExPeek PkNone)]) /\
+           (exists (k : Z) (e : ev),
+              In (k, e) (s_queue s) /\
+              (k <= s_itime s)%Z /\ In e (ins_events false tr0) /\ ~ In e (popped_events tr0)).
+Proof. exact C20_events_refuted. Qed.
+Print Assumptions C20_events_refuted_thm.
+
+(* second manifestation: the step computed for the peeked event consumes another event *)
+Theorem C20_events_refuted_pop_thm :
+  ~
+         pops_ok
+           (snd
+              (run_schedule
+                 {| cf_chart := ChPlain; cf_all := false; cf_atomic := false; cf_script := w2_script |}
+                 w2_sched)).
+Proof. exact C20_events_refuted_pop. Qed.
+Print Assumptions C20_events_refuted_pop_thm.
